@@ -353,7 +353,7 @@ def scalar_requires(case, nm):
                 out.append('(%s >= %dULL && %s <= %dULL)' % (x, sc.lo, x, sc.hi))
     return out
 
-def contract_text(case, fname='w'):
+def contract_text(case, fname='w', mutable_globals=()):
     """DFCC contract clauses for the translated entry."""
     pn = param_c_names(case)
     assign_atom_offsets(case)
@@ -365,7 +365,7 @@ def contract_text(case, fname='w'):
             L.append('__CPROVER_requires(__CPROVER_%s(%s, %d))' % ('r_ok' if b.role == 'in' else 'rw_ok', pn[b.name], b.n * b.ty.bits // 8))
         else:
             L.append('__CPROVER_requires(__CPROVER_is_fresh(%s, %d))' % (pn[b.name], b.n * b.ty.bits // 8))
-    L.append('__CPROVER_requires(VERIF_threw == 0 && VERIF_illtyped == 0)')
+    L.append('__CPROVER_requires(VERIF_threw == 0 && VERIF_illtyped == 0%s)' % (' && VERIF_softtyped == 0' if case.mode == 'ATOMS' else ''))
     ctx = {'mode': case.mode,
            'argname': lambda sc: pn[sc.name]}
     def pre(buf, ke):
@@ -387,7 +387,12 @@ def contract_text(case, fname='w'):
     for r in case.requires:
         L.append('__CPROVER_requires(%s)' % r.c(ctx))
     asg = ['__CPROVER_object_whole(%s)' % pn[b.name] for b in case.bufs if b.role != 'in']
-    asg += ['VERIF_threw', 'VERIF_illtyped']
+    asg += ['VERIF_threw', 'VERIF_illtyped'] + (['VERIF_softtyped'] if case.mode == 'ATOMS' else [])
+    # function-local statics of the library (guard variable + cached constant) belong to the frame; the contract
+    # describes the first call: guards are 0 on entry (DFCC havocs non-const statics otherwise)
+    for g in mutable_globals:
+        asg.append(g['name'] if g['scalar'] else '__CPROVER_object_whole(%s)' % g['name'])
+        if g['scalar'] and g['zero_init']: L.append('__CPROVER_requires(%s == 0)' % g['name'])
     L.append('__CPROVER_assigns(%s)' % ', '.join(asg))
     if case.mode == 'ATOMS':
         L.append('__CPROVER_ensures(VERIF_illtyped == 0)')      # applicability obligation: postcondition.1
@@ -397,6 +402,8 @@ def contract_text(case, fname='w'):
             L.append('__CPROVER_ensures(%s)' % e.c(ctx))
         else:
             L.append('__CPROVER_ensures(((%s*)%s)[%d] == %s)' % (b.ty.carrier, pn[b.name], k, e.c(ctx)))
+    if case.mode == 'ATOMS':
+        L.append('__CPROVER_ensures(VERIF_softtyped == 0)')     # diagnostic only (last clause): no operation at all left the typing
     return '\n'.join(L) + '\n'
 
 def dfcc_main(case, fname='w'):
@@ -458,6 +465,8 @@ def harness_main(case, fname='w'):
     for b in case.bufs:
         if b.role == 'in':
             L.append('  for (int k = 0; k < %d; k++) __CPROVER_assert(%s[k] == %s_pre[k], "frame.%s input unchanged");' % (b.n, b.name, b.name, b.name))
+    if case.mode == 'ATOMS':
+        L.append('  __CPROVER_assert(VERIF_softtyped == 0, "diagnostic.softtyped");')
     L.append('  __CPROVER_assert(0, "VACUITY-CANARY reachable end of harness");')
     L.append('  return 0;\n}')
     return '\n'.join(L) + '\n'
@@ -571,7 +580,7 @@ def stage_translate(args):
             d['hfile'] = hfile
             cfile = hfile
             if case.form == 'dfcc':
-                ctext, info = ir2c.translate(mod, [name], atoms=(case.mode == 'ATOMS'), contracts={name: contract_text(case, name)}, data_bits=db, param_bits=pb)
+                ctext, info = ir2c.translate(mod, [name], atoms=(case.mode == 'ATOMS'), contracts={name: contract_text(case, name, info.get('mutable_globals', ()))}, data_bits=db, param_bits=pb)
                 cfile = os.path.join(gdir, name + '.c')
                 open(cfile, 'w').write(pre + ctext + dfcc_main(case, name))
             d.update(status='TRANSLATED', cfile=cfile, info=info, t_ir2c=time.time() - t1)
@@ -631,7 +640,14 @@ def classify(case, d):
         d.update(status='UNDECIDED', detail='vacuity guard: canary assertion missing from results'); return
     if res[canary[0]][1] != 'FAILURE':
         d.update(status='UNDECIDED', detail='vacuity guard: end of harness unreachable under the preconditions'); return
-    obl = {k: v for k, v in res.items() if k not in canary}
+    # ATOMS: the last ensures clause / the "diagnostic.softtyped" assertion is informational, not an obligation
+    diag = []
+    if case.mode == 'ATOMS':
+        diag = [k for k, (desc, v) in res.items() if desc.startswith('diagnostic.softtyped')]
+        pcs = sorted([k for k, (desc, v) in res.items() if re.match(r'.*\.postcondition\.\d+$', k) and 'ensures' in desc], key=natural_key)
+        if pcs and not diag: diag = [pcs[-1]]
+    d['soft_illtyped'] = any(res[k][1] != 'SUCCESS' for k in diag)
+    obl = {k: v for k, v in res.items() if k not in canary and k not in diag}
     failed = {k: v for k, v in obl.items() if v[1] != 'SUCCESS'}
     d['n_obligations'] = len(obl)
     d['n_discharged'] = len(obl) - len(failed)
@@ -645,15 +661,13 @@ def classify(case, d):
     if unw:
         d.update(status='UNDECIDED', detail='unwinding assertion failed (%s): bound too small' % unw[0]); return
     d['failed'] = {k: v[0] for k, v in failed.items()}
-    # name the clauses
     names = []
     for k, (desc, v) in sorted(failed.items(), key=lambda kv: natural_key(kv[0])):
         names.append(describe_obligation(case, k, desc))
     d['failed_names'] = names
-    if case.mode == 'ATOMS':
-        appl = [n for n in names if 'applicability' in n]
-        if appl:
-            d['status'] = 'INAPPLICABLE'; d['detail'] = 'ATOMS applicability obligation failed (an operation left the provenance typing)'; return
+    if case.mode == 'ATOMS' and (d['soft_illtyped'] or any('applicability' in n for n in names)):
+        # some operation left the provenance typing: the abstraction cannot decide; native replay on the real code does
+        d['status'] = 'INAPPLICABLE'; d['detail'] = 'ATOMS: an operation left the provenance typing (abstraction not applicable)'; return
     d['status'] = 'FAIL'
 
 def natural_key(s):
@@ -758,8 +772,8 @@ def replay_source(case, vectors):
         if b == 'bool':
             L.append('  { if (!(%s)) { if (!bad) std::printf("MISMATCH trial %%d clause %d: %s\\n", trial); bad++; } }' % (e.cpp(ctx), i + 1, k))
             continue
-        L.append('  { %s want = %s; %s got = %s[%d]; if (!same(got, want) && !(want != want && got != got)) { if (!bad) { std::printf("MISMATCH trial %%d clause %d: %s[%d] ", trial); show("got", got); show("want", want); std::printf("\\n"); } bad++; } }'
-                 % (b.ty.cpp, e.cpp(ctx), b.ty.cpp, b.name, k, i + 1, b.name, k))
+        L.append('  { %s want = %s; %s got = %s[%d]; if (%s && !(want != want && got != got)) { if (!bad) { std::printf("MISMATCH trial %%d clause %d: %s[%d] ", trial); show("got", got); show("want", want); std::printf("\\n"); } bad++; } }'
+                 % (b.ty.cpp, e.cpp(ctx), b.ty.cpp, b.name, k, '!(got == want)' if (exact and b.ty.kind == 'float') else '!same(got, want)', i + 1, b.name, k))
     for b in case.bufs:
         if b.role == 'in':
             L.append('  for (int k=0;k<%d;k++) if (!same(%s[k], %s_pre[k])) { if (!bad) std::printf("MISMATCH trial %%d frame: input %s[%%d] modified\\n", trial, k); bad++; }' % (b.n, b.name, b.name, b.name))
